@@ -131,7 +131,7 @@ def gen_inputs(rng, cfg, T, n):
             elif u < 0.15:
                 x = 0.0
             elif u < 0.3:
-                x = rng.choice([1e3, 4096.0, 1e6])
+                x = rng.choice([1e3, 4096.0, 1e6, 1e9, 1e12, 1e15, 2.0 ** 60])
             elif u < 0.4:
                 x = -rng.choice([1.0, 50.0, 1e4])
             elif u < 0.6 or mode == "near":
